@@ -1,21 +1,26 @@
-(* C06 -- ring perception returns a minimum cycle basis that ring marks agree with (PARTIAL).
-   Statements only; proofs in Proofs.RingsProofs and Proofs.RingsMcb.
+(* C06 -- ring perception returns a minimum cycle basis that ring marks agree with (PARTIAL for the implementation's
+   candidate generation only).  Statements only; proofs in Proofs.RingsProofs, RingsMcb, RingsRank, RingsExt, RingsDim,
+   RingsFund, RingsMin, RingsHorton, RingsFilterProofs.
 
    What is a theorem here:
      (S) the cycle-basis CHECKER is sound AND complete (accepted <-> well-formed graph, simple cycles of the graph,
-         GF(2)-independent, count = cyclomatic number); the implementation's SSSR selection
-         (_bfs/_make_pid/_c_set/_rings_filter/...) is a heuristic with recorded gaps and is NOT modelled: its outputs are run
-         through the checker on every check run; the reference construction mcb_ref returns independent simple cycles
-         (a basis whenever it reaches the count: _partial);
+         GF(2)-independent, count = cyclomatic number), and by the DIMENSION THEOREM of the cycle space an accepted list SPANS
+         every simple cycle; the reference construction mcb_ref is a cycle basis of every well-formed graph and has MINIMUM
+         total size among all cycle bases (Steinitz + matroid greedy + Horton's theorem for breadth-first candidates), so
+         "accepted and total size = total size of mcb_ref", which the check evaluates per molecule inside Coq, certifies a
+         minimum cycle basis;
      (A) the deterministic pieces are modelled at algorithm level and proved for all inputs:
-         _connected_components (any pop order), _skin_graph, rings_count, _canonic_ring, atoms_rings /
-         atoms_rings_sizes / the ring marks of calc_labels (special bonds never in a ring), aromatic_rings.
-   What is NOT a theorem: minimality of the total ring size and numbering-independence of the ring-size multiset
-   (search against the reference construction mcb_ref / a Python Horton implementation), that the Horton candidates span
-   the cycle space, and "in_ring <-> lies on a cycle" (search against a bridge finder). *)
+         _connected_components (any pop order), _skin_graph (same cycles, same cyclomatic number), rings_count,
+         _canonic_ring, atoms_rings / atoms_rings_sizes / the ring marks of calc_labels, aromatic_rings; the selection phase
+         (_rings_filter, _connected_rings, _is_condensed_ring, _get_unique_chord) is modelled and tied by correspondence,
+         proved: it returns n_sssr rings of the candidate stream.
+   What is NOT a theorem: that the implementation's sssr IS accepted / minimum for every molecule (false: recorded gap
+   families; every output is run through the checker and the certificate instead), numbering-independence of the ring-size
+   multiset (follows per input from the certificate), "in_ring <-> lies on a cycle" (search against a bridge finder);
+   _bfs/_make_pid/_c_set are not modelled. *)
 From Coq Require Import ZArith List Bool Permutation.
-From Model Require Import PyBase Graph Rings.
-From Proofs Require Import RingsProofs RingsMcb RingsRank RingsExt RingsDim RingsFund RingsMin.
+From Model Require Import PyBase Graph Rings RingsFilter.
+From Proofs Require Import RingsProofs RingsMcb RingsRank RingsExt RingsDim RingsFund RingsMin RingsHorton RingsFilterProofs.
 Import ListNotations.
 Open Scope Z_scope.
 
@@ -92,7 +97,7 @@ Print Assumptions C06_mcb_ref_sound.
 
 (* mcb_ref_is_basis, unconditional: the reference construction is accepted by the checker on EVERY well-formed graph
    (the greedy selection reaches the count because its candidates contain the independent fundamental cycles; Steinitz).
-   Minimality of mcb_ref among ALL cycle bases still needs Horton's theorem, which is not proved. *)
+   Minimality among ALL cycle bases: C06_mcb_ref_minimum below. *)
 Theorem C06_mcb_ref_is_basis : forall g, gwf g -> is_cycle_basis g (mcb_ref g) = true.
 Proof. exact mcb_ref_is_basis. Qed.
 Print Assumptions C06_mcb_ref_is_basis.
@@ -168,24 +173,44 @@ Theorem C06_greedy_min_weight : forall g cands need T,
 Proof. exact greedy_min_weight. Qed.
 Print Assumptions C06_greedy_min_weight.
 
-(* minimality of mcb_ref, PARTIAL: its total size is minimum among all linearly independent families with as many rings
-   whose members are (up to spelling) candidates (Horton candidates or fundamental cycles).  Missing for "mcb_ref is a
-   MINIMUM cycle basis": Horton's theorem that some minimum cycle basis consists of candidates only. *)
-Theorem C06_mcb_ref_min_among_candidates_partial : forall g T,
+(* first step (superseded by C06_mcb_ref_minimum): its total size is minimum among all linearly independent families with as many rings
+   whose members are (up to spelling) candidates (Horton candidates or fundamental cycles). *)
+Theorem C06_mcb_ref_min_among_candidates : forall g T,
   (forall t, In t T -> exists c, In c (mcb_candidates g) /\ same_cycle g t c) ->
   ~ dependent (map (ring_vec g) T) -> length T = length (mcb_ref g) ->
   total_size (mcb_ref g) <= total_size T.
 Proof. exact mcb_ref_min_among_candidate_cycles. Qed.
-Print Assumptions C06_mcb_ref_min_among_candidates_partial.
+Print Assumptions C06_mcb_ref_min_among_candidates.
 
-(* minimality of mcb_ref among ALL cycle bases, PARTIAL: proved under Horton's property of the graph (every simple cycle is a
-   GF(2) sum of candidates none of which is longer than the cycle).  This is the complete algebraic half of Horton's theorem
-   (threshold counting + Steinitz instead of an exchange argument); missing is the metric half: that the breadth-first
-   candidates of every graph have the property.  Every candidate has it trivially. *)
-Theorem C06_mcb_ref_minimum_partial : forall g, gwf g -> horton_property g ->
+(* Horton's property holds for EVERY well-formed graph: each simple cycle is a GF(2) sum of candidates none of which is
+   longer than the cycle (strong induction on the size; breadth-first paths are shortest, the tree is prefix closed, the
+   fundamental closed walks of the bonds of the cycle telescope to the cycle and are candidates or strictly smaller cycles) *)
+Theorem C06_horton_property : forall g, gwf g -> horton_property g.
+Proof. exact horton_property_holds. Qed.
+Print Assumptions C06_horton_property.
+
+(* MINIMALITY: the reference basis has minimum total size among ALL cycle bases of the graph *)
+Theorem C06_mcb_ref_minimum : forall g, gwf g -> forall rs, is_cycle_basis g rs = true -> total_size (mcb_ref g) <= total_size rs.
+Proof. exact mcb_ref_minimum. Qed.
+Print Assumptions C06_mcb_ref_minimum.
+
+(* the per-molecule certificate the check evaluates inside Coq: an accepted ring list whose total size equals that of
+   mcb_ref is a minimum cycle basis *)
+Theorem C06_minimum_certificate : forall g rs, is_cycle_basis g rs = true -> total_size rs = total_size (mcb_ref g) ->
+  forall rs', is_cycle_basis g rs' = true -> total_size rs <= total_size rs'.
+Proof. exact minimum_certificate. Qed.
+Print Assumptions C06_minimum_certificate.
+
+Theorem C06_minimum_example : is_cycle_basis cage_7_12 (mcb_ref cage_7_12) = true /\ total_size (mcb_ref cage_7_12) = 21 /\
+  forall rs, is_cycle_basis cage_7_12 rs = true -> 21 <= total_size rs.
+Proof. exact ex_minimum. Qed.
+Print Assumptions C06_minimum_example.
+
+(* the reduction used above (algebraic half): under Horton's property the reference basis is minimum *)
+Theorem C06_mcb_ref_minimum_of_horton_property : forall g, gwf g -> horton_property g ->
   forall rs, is_cycle_basis g rs = true -> total_size (mcb_ref g) <= total_size rs.
 Proof. exact mcb_ref_minimum_partial. Qed.
-Print Assumptions C06_mcb_ref_minimum_partial.
+Print Assumptions C06_mcb_ref_minimum_of_horton_property.
 
 Theorem C06_candidate_small_span : forall g c, In c (mcb_candidates g) -> small_span g c.
 Proof. exact candidate_small_span. Qed.
@@ -386,3 +411,20 @@ Theorem C06_ring_aromatic_spec : forall g r, ring_aromatic g r = Ok true <->
   r <> [] /\ bond_ord g (hd 0 r) (last r 0) = Ok 4 /\ forall n m, In (n, m) (combine r (tl r)) -> bond_ord g n m = Ok 4.
 Proof. exact ring_aromatic_spec. Qed.
 Print Assumptions C06_ring_aromatic_spec.
+
+(* ---- (A) the selection phase: _rings_filter / _connected_rings / _is_condensed_ring / _get_unique_chord (model/RingsFilter.v) ---- *)
+
+(* whenever the model of _rings_filter returns, it returns exactly n_sssr rings and every one is a ring of the candidate
+   stream it was given (that the returned rings are independent is NOT a theorem: the selection is a heuristic with recorded
+   gaps; every output is run through the verified checker instead) *)
+Theorem C06_rings_filter_result : forall cands n rs, rings_filter cands n = Ok rs ->
+  length rs = n /\ forall r, In r rs -> In r cands.
+Proof. exact rings_filter_result. Qed.
+Print Assumptions C06_rings_filter_result.
+
+Theorem C06_rings_filter_example :
+  rings_filter [[1;2;3]; [1;2;4]; [1;3;4]; [2;3;4]] 3 = Ok [[1;2;3]; [1;2;4]; [1;3;4]] /\
+  is_condensed_ring [2;3;4] [[1;2;3]; [1;2;4]; [1;3;4]] = Ok true /\
+  connected_rings [[1;2;3]; [1;2;4]] = Ok [[1;3;2;4]].
+Proof. exact ex_rings_filter. Qed.
+Print Assumptions C06_rings_filter_example.
